@@ -496,7 +496,22 @@ def comprehension(R, it, target):
     if target == 'set':
         raise OutOfReach('set comprehension over a symbolic sequence')
     rk = ('seq', vk)
+    # [f(x, extras) for x in xs] with f a spec function: the generated map_f (no quantifier needed)
+    if B.is_seq(s.coll) and z3.is_app(val) and val.num_args() >= 1:
+        dn = val.decl().name()
+        sf = R.w.specs.get(dn)
+        if sf is not None and sf.decl.eq(val.decl()) and val.arg(0).eq(s.coll.e[x]):
+            extras = [val.arg(i) for i in range(1, val.num_args())]
+            if not any(_mentions(e, x) for e in extras):
+                mf = R.w.map_fn(dn)
+                return ZV(mf.decl(s.coll.e, *extras), rk)
     res = z3.Const(R.fresh_name('mapped'), R.S.sort_of(rk))
     R.assume(z3.Length(res) == s.n)
     R.assume(z3.ForAll([x], z3.Implies(mem, res[x] == val)))
     return ZV(res, rk)
+
+
+def _mentions(e, x):
+    out = set()
+    collect_consts(e, out)
+    return any(c.eq(x) for c in out)
